@@ -672,6 +672,57 @@ fn gen_colour_count(rng: &mut Rng, ncol: usize) -> Value {
     json!({"bg": Value::Null, "imgs": [{"w": w, "h": h, "data": data, "crop": Value::Null}], "draws": [0, 0]})
 }
 
+/// different images with IDENTICAL quantised palettes on one handler (the same colour set arranged differently,
+/// other sizes, bytes that differ below the 0..100 resolution), and one with another palette in between: every
+/// draw must decode standalone (a terminal may have been reset, output may be replayed elsewhere), whatever
+/// was drawn before it
+fn gen_same_palette(rng: &mut Rng) -> Value {
+    let many = rng.chance(1, 4);
+    let ncol = 1 + rng.below(if many { 40 } else { 6 }) as usize;
+    let pal = palette(rng, ncol);
+    let nother = 1 + rng.below(6) as usize;
+    let other = palette(rng, nother);
+    let image = |rng: &mut Rng, cols: &[Rgb], jitter: bool| -> Value {
+        let w = 1 + rng.below(12) as usize;
+        let h = 6 * (1 + rng.below(3) as usize) + if rng.chance(1, 4) { rng.below(6) as usize } else { 0 };
+        let drawn = (h - h % 6) * w;
+        // every colour at least once in the drawn part when there is room
+        let mut px: Vec<Rgb> = (0..h * w).map(|i| cols[if i < drawn { i % cols.len() } else { 0 }]).collect();
+        for i in (1..drawn).rev() {
+            let j = rng.below(i as u64 + 1) as usize;
+            px.swap(i, j);
+        }
+        let data: Vec<Value> = px
+            .iter()
+            .map(|p| {
+                // a neighbouring byte usually falls on the same 0..100 level: another image, the same palette
+                let q = if jitter && rng.chance(1, 3) { [p[0] ^ 1, p[1], p[2]] } else { *p };
+                json!([q[0], q[1], q[2], 255])
+            })
+            .collect();
+        json!({"w": w, "h": h, "data": data, "crop": Value::Null})
+    };
+    let n_same = 2 + rng.below(2) as usize;
+    let mut imgs: Vec<Value> = vec![];
+    for k in 0..n_same {
+        let jitter = k > 0 && rng.chance(1, 2);
+        imgs.push(image(rng, &pal, jitter));
+    }
+    let c = imgs.len();
+    imgs.push(image(rng, &other, false));
+    // A, B, (B'), C, B, A, C: first renderings right after an equal palette, replays after another one
+    let mut draws: Vec<Value> = (0..n_same).map(|k| json!(k)).collect();
+    draws.push(json!(c));
+    for k in (0..n_same).rev() {
+        draws.push(json!(["d", k, rng.below(4)]));
+    }
+    draws.push(json!(c));
+    if rng.chance(1, 2) {
+        draws.insert(0, json!(c));
+    }
+    json!({"bg": Value::Null, "imgs": imgs, "draws": draws})
+}
+
 /// sizes aimed at the integer constants written in src/image.rs (and their neighbours): widths, heights
 /// (in bands and in rows), colour counts, run lengths
 fn gen_boundary(rng: &mut Rng) -> Value {
@@ -844,6 +895,7 @@ pub fn generate(rng: &mut Rng, n: usize, tier: &str) -> Vec<Value> {
             3 | 16 => gen_crop_siblings(rng, thorough),
             9 | 22 => gen_history(rng, thorough),
             1 | 13 | 24 => gen_boundary(rng),
+            18 => gen_same_palette(rng),
             _ => gen_case(rng, thorough),
         };
         // any history may run behind `impl ImageHandler for Box<T>`
